@@ -101,7 +101,7 @@ theorem node_step (fuel : Nat) (a b : Pat) (st : St) :
 
 /-! Non-vacuity -/
 section Examples
-def sq (xs : List Int) (rep : Int) : Pat := .node .seq (xs.map (fun i => Pat.const (.int i))) { n := [rep, 0, 0] }
+def sq (xs : List Int) (rep : Int) : Pat := .node .seq (xs.map (fun i => Pat.const (.int i))) { n0 := rep }
 -- (1 2 3)×1 − (10 20)×∞ : ends with the shorter operand; subtraction is not commutative
 example : outs 10 5 (.node .sub [sq [1, 2, 3] 1, sq [10, 20] (-1)] {}) =
     [.val (.int (-9)), .val (.int (-18)), .val (.int (-7)), .stop, .stop] := by decide
